@@ -134,6 +134,18 @@ class StoreRun:
             free = {"op": "delete", "name": n, "handle": hb} if r.random() < 0.5 else imp(n, "u-freed-%d" % self.fresh, hb)
             self.queue = [free, imp("h%d.ics" % self.fresh, u, hb), imp("h%d.ics" % (self.fresh + 1), u, ha)]
             return imp("scan%d.ics" % self.fresh, "u-scan-%d" % self.fresh, ha)
+        if self.prop == "C06" and holders and r.random() < 0.1:
+            # a member is deleted and comes back byte-identical; its UID must be taken again
+            n, u = r.choice(holders)
+            h = r.randrange(nh)
+            self.fresh += 2
+            ct = "text/calendar" if n.endswith(".ics") else "text/vcard"
+            b2, ct2 = self.body("back%d.ics" % self.fresh, u)
+            self.queue = [{"op": "delete", "name": n, "handle": h},
+                          {"op": "import", "name": n, "body": self.model[n]["bytes"].decode("latin-1"), "ctype": ct, "handle": h},
+                          {"op": "import", "name": "back%d.ics" % self.fresh, "body": b2.decode("latin-1"), "ctype": ct2, "handle": h}]
+            b1, ct1 = self.body("scan%d.ics" % self.fresh, "u-scan-%d" % self.fresh)
+            return {"op": "import", "name": "scan%d.ics" % self.fresh, "body": b1.decode("latin-1"), "ctype": ct1, "handle": h}
         k = r.random()
         p = self.prop
         if k < 0.3 or not names:
